@@ -41,6 +41,7 @@ type GenCfg struct {
 	Probes                                                                                     bool   // pn/pb/ps/pn2 host functions in expressions
 	Visited                                                                                    bool   // visited()/visited_count() in expressions
 	MoreBuiltins                                                                               int    // added to the percentages with which built-ins (and round_places among them) are drawn
+	ArgExprPct                                                                                 int    // chance that a command argument is an {expression} (default 35)
 	NoLongLines                                                                                bool   // C05/C20: every base script is loaded hundreds of times - long lines come as stream cases there
 	HostFnWrites                                                                               bool   // <<call pw("n0", e)>>: a host function that writes a variable while the script runs
 	BigRoundsPct                                                                               int    // share of hub worlds whose loop runs 126-300 rounds
@@ -640,7 +641,11 @@ func (g *gen) command() *Stmt {
 	}
 	for _, k := range kinds {
 		ty := yarnKindOfGo(k)
-		if g.tp.Chance(35, "argexpr") {
+		argPct := 35
+		if g.cfg.ArgExprPct > 0 {
+			argPct = g.cfg.ArgExprPct
+		}
+		if g.tp.Chance(argPct, "argexpr") {
 			s.Args = append(s.Args, CmdArg{E: g.expr(ty, 1)})
 			continue
 		}
